@@ -35,7 +35,8 @@ ASSUMPTIONS = ["known findings are keyed by (phase, exception type, raising "
 REQUIRED = ["frames", "unparsed_layers_compared_with_their_region", "parsed_ok", "truncations", "corruptions", "structured",
             "random_frames", "chains_walked", "reserialised", "printed",
             "budget_armed", "packet_in_events", "checksum_fixed_mutants", "igmp_checksum_fixed_mutants", "template_base_frames",
-            "deeply_nested_frames"]
+            "deeply_nested_frames", "frames_handled_with_debug_logging_on",
+            "library_log_records_formatted"]
 TIMEOUT = {"quick": 1200, "thorough": 10800}
 
 _st = {}
@@ -228,10 +229,54 @@ def check_frame (raw, rep, case):
     bud.disarm()
 
 
+class _Sink (object):
+  """A log handler that formats every record (as a console or file handler
+  would) and throws the text away."""
+  def __init__ (self):
+    import logging
+    class H (logging.Handler):
+      def emit (self_, record):
+        self.n += 1
+        self_.format(record)
+      def handleError (self_, record):
+        # (logging's default is to print and carry on; an exception while
+        #  formatting a library log message is counted and shown instead)
+        self.errors.append(traceback.format_exc()[-400:])
+    self.n = 0
+    self.errors = []
+    self.h = H()
+    self.h.setFormatter(logging.Formatter("%(name)s %(levelname)s %(message)s"))
+
+
+def _verbose (on):
+  """What `pox.py --verbose` / `log.level --DEBUG` do to the packet library's
+  logger: with it on, the library's debug messages are built and formatted."""
+  import logging
+  lg = logging.getLogger("packet")
+  if "sink" not in _st:
+    _st["sink"] = _Sink()
+    lg.addHandler(_st["sink"].h)
+    lg.propagate = False
+  lg.setLevel(logging.DEBUG if on else logging.CRITICAL + 10)
+  return _st["sink"]
+
+
 def do_case (case, rep):
   raw = case["frame"]
+  # (every other shard runs with the library's debug logging switched on: what
+  #  a frame does to the process must not depend on the log level)
+  if "verbose" not in case: case["verbose"] = bool(_st.get("verbose"))
+  sink = _verbose(case["verbose"])
+  n0 = sink.n
   try:
     check_frame(raw, rep, case)
+    if case["verbose"]:
+      rep.count("frames_handled_with_debug_logging_on")
+      rep.count("library_log_records_formatted", sink.n - n0)
+      if sink.errors:
+        e = sink.errors[:]; del sink.errors[:]
+        rep.violation("C15 a log message of the packet library cannot be formatted",
+                      e[0], case)
   except Exception:
     rep.violation("C15 harness-visible exception",
                   traceback.format_exc()[-900:], case)
@@ -417,6 +462,7 @@ def plan (tier, seed):
 
 
 def run (spec, rep):
+  _st["verbose"] = bool(spec.get("shard", 0) % 2)
   if spec["base"] == -1:
     for name, b in deep_frames():
       rep.count("deeply_nested_frames")
